@@ -31,7 +31,7 @@ FRESH = re.compile(r'x[0-9]+__fresh')
 def cases(draw):
     c = draw(gen_run.run_case(jobs=(1, ), formats=('default', ), with_cc=False, with_delay=False,
                               comparisons=False, mutator_subsets=True, max_asserts=5,
-                              kinds=['hash', 'hash', 'mixed', 'monotone']))
+                              kinds=['hash', 'hash', 'mixed', 'monotone'], mixed_inputs=True))
     if draw(st.booleans()):
         c['opts']['extra_argv'] = list(c['opts'].get('extra_argv', [])) + ['--no-introduce-fresh-variables']
         c['fresh_disabled'] = True
